@@ -12,6 +12,9 @@ structure DSt where
   sasl2 : Bool := false
   fastOn : Bool := false
   univ : Array String := #[]
+  useSasl2 : Bool := true
+  useSasl : Bool := true
+  useNonSasl : Bool := true
 
 def decName (s : String) : String := if s = "%" then "" else s
 def decList (s : String) : List String := if s = "-" then [] else (s.splitOn ",").map decName
@@ -65,8 +68,51 @@ def runCase (s : DSt) (offer : List String) (fast : Option (List String)) : Stri
     | none => showOutcome (authenticate s.cfg offer)
     | some _ => "bad-op"
 
+def showClient (o : ClientOutcome) : String :=
+  let d := if o.disconnects then "1" else "0"
+  match o with
+  | .sasl (.sent m _) => s!"sasl {encName m} {d}"
+  | .sasl2 (.sent m f) => s!"sasl2 {encName m} {if f then 1 else 0} {d}"
+  | .sasl (.mismatch l) => s!"mismatch {encList l} {d}"
+  | .sasl2 (.mismatch l) => s!"mismatch {encList l} {d}"
+  | .legacyAuth => s!"legacy {d}"
+  | .bind => s!"bind {d}"
+  | .session => s!"session {d}"
+
+def runClient (s : DSt) (mechs : List String) (legacy bind : String) (m2 fast : Option (List String)) : String :=
+  let c : ClientCfg := { cfg := s.cfg, useSasl2 := s.useSasl2, useSasl := s.useSasl, useNonSasl := s.useNonSasl, fastOn := s.fastOn }
+  let f : Features := { mechanisms := mechs, legacyAuth := legacy = "1", bind := bind = "1", sasl2 := m2,
+                        fast := match m2 with | some _ => fast | none => none }
+  showClient (clientChoice c f)
+
+/-- `<useSasl2><useSASL><useNonSASL>:<useFast>:<userAgent>` -/
+def parseClientFlags (s : String) : Option (Bool × Bool × Bool × Bool) :=
+  match s.splitOn ":" with
+  | [f, u, a] =>
+    match f.toList with
+    | [x, y, z] => some (x = '1', y = '1', z = '1', fastEnabled (u = "1") (a = "1"))
+    | _ => none
+  | _ => none
+
 def stepLine (s : DSt) (line : String) : DSt × String :=
   match words line with
+  | ["resetc", flags, dis, pref, creds, univ] =>
+    match parseClientFlags flags, parseCreds creds with
+    | some fl, some cr =>
+      let disabled := if dis = "default" then Qx.SaslOrder.defaultDisabled else decList dis
+      ({ cfg := { disabled := disabled, preferred := if pref = "-" then "" else pref, creds := cr },
+         sasl2 := false, fastOn := fl.2.2.2, univ := (decList univ).toArray,
+         useSasl2 := fl.1, useSasl := fl.2.1, useNonSasl := fl.2.2.1 }, "ok")
+    | _, _ => (s, "bad-op")
+  | ["c", mask, legacy, bind, m2, fm] =>
+    match hexNat mask, (if m2 = "!" then some none else (hexNat m2).map some),
+          (if fm = "!" then some none else (hexNat fm).map some) with
+    | some m, some m2, some fm =>
+      (s, runClient s (maskNames s.univ m) legacy bind (m2.map (maskNames s.univ)) (fm.map (maskNames s.univ)))
+    | _, _, _ => (s, "bad-op")
+  | ["k", mechs, legacy, bind, m2, fm] =>
+    (s, runClient s (decList mechs) legacy bind (if m2 = "!" then none else some (decList m2))
+          (if fm = "!" then none else some (decList fm)))
   | ["reset", mode, dis, pref, creds, univ] =>
     match parseMode mode, parseCreds creds with
     | some md, some cr =>
